@@ -223,3 +223,14 @@ Definition hdiag (c : hcase) :=
   let '(tr, setup, h, ops, rows, fin) := c in
   let s0 := fst (run (init tr) setup) in
   let '(s, h', rs) := htrace s0 h ops in (rs, oob s, hoob h', map pid (firstn (sN s) (mem s))).
+
+(* ---- the tree update (reb_simulation_update_tree_cell, src/tree.c) re-inserting a particle that left its cell:
+   N--; particles[oldpos] = particles[N]; reb_simulation_reinsert_particle(r, reinsertme)  -- the particle goes
+   to the end of the array through the storing half of reb_simulation_add_local only (since 794b7d9); the
+   MERCURIUS / TRACE bookkeeping for new particles does not run. *)
+Definition tree_reinsert (s : state) (h : hyb) (oldpos : nat) : state * hyb :=
+  let n1 := sN s - 1 in
+  let pt := nth oldpos (mem s) pzero in
+  let s1 := mkS (tcfg s) (upd (mem s) oldpos (nth n1 (mem s) pzero)) n1 (sNact s) (sNvar s) (tab s) (nlook s) (tree s)
+                (oob s + chk (length (mem s)) oldpos + chk (length (mem s)) n1 + chk (length (mem s)) oldpos) in
+  (add s1 pt, h).
